@@ -2220,7 +2220,18 @@ impl<'a> VisitMut for Rules<'a> {
                                                 let #xpat = #recv.get_index(#ii).unwrap();
                                                 #(#stmts)*
                                             }
-                                        }) } else { syn::parse_quote!({
+                                        }) } else if let syn::Pat::Reference(rp) = &xpat {
+                                            // `for (i, &x) in A.iter().enumerate()`: the element is copied out (the verifier has no reference patterns)
+                                            let inner = (*rp.pat).clone();
+                                            syn::parse_quote!({
+                                                let #nn = #recv.len();
+                                                #label for #ii in 0..#nn {
+                                                    let #ipat = #ii;
+                                                    let #inner = #recv[#ii];
+                                                    #(#stmts)*
+                                                }
+                                            })
+                                        } else { syn::parse_quote!({
                                             let #nn = #recv.len();
                                             #label for #ii in 0..#nn {
                                                 let #ipat = #ii;
